@@ -152,6 +152,8 @@ where
 		let extensions = extensions.clone();
 
 		tokio::spawn(async move {
+			#[cfg(jsonrpsee_verif)]
+			jsonrpsee_core::verif_hooks::point("server:ws:call:start").await;
 			let first_non_whitespace = data.iter().enumerate().take(128).find(|(_, byte)| !byte.is_ascii_whitespace());
 
 			let (idx, is_single) = match first_non_whitespace {
@@ -171,6 +173,8 @@ where
 				let is_success = rp.is_success();
 				let (json, mut on_close, _) = rp.into_parts();
 
+				#[cfg(jsonrpsee_verif)]
+				jsonrpsee_core::verif_hooks::point("server:ws:call:before_send").await;
 				// The connection is closed, just quit.
 				if sink.send(json).await.is_err() {
 					return;
@@ -227,6 +231,8 @@ async fn send_task(
 		match future::select(rx_item, futs).await {
 			// Received message.
 			Either::Left((Some(response), not_ready)) => {
+				#[cfg(jsonrpsee_verif)]
+				jsonrpsee_core::verif_hooks::point("server:ws:send_task:before_send").await;
 				// If websocket message send fail then terminate the connection.
 				if let Err(err) = send_message(&mut ws_sender, response).await {
 					tracing::debug!(target: LOG_TARGET, "WS send error: {}", err);
@@ -352,6 +358,9 @@ async fn graceful_shutdown<S>(
 	S: StreamExt<Item = Result<Incoming, SokettoError>> + Unpin,
 {
 	let pending_calls = ReceiverStream::new(pending_calls);
+
+	#[cfg(jsonrpsee_verif)]
+	jsonrpsee_core::verif_hooks::point("server:ws:graceful_shutdown:enter").await;
 
 	if let Ok(Shutdown::Stopped) = result {
 		let graceful_shutdown = pending_calls.for_each(|_| async {});
